@@ -52,11 +52,12 @@ func c01HTTP(r *ev.Result) {
 	}
 	streams = append(streams, c01Stream{Dir: "io"})
 	n := 0
+	before := r.NViolations()
 	for _, first := range streams {
 		for _, second := range streams {
 			n++
 			c01HTTPPair(r, first, second)
-			if r.NViolations() >= 8 {
+			if r.NViolations() >= before+8 {
 				/* Enough to report; every failing pair costs a watchdog. */
 				r.Set("http_seam_stopped_early_after_pairs", n)
 				break
